@@ -1,6 +1,7 @@
 package main
 
 import (
+	"go/constant"
 	"go/token"
 	"go/types"
 	"sort"
@@ -1343,77 +1344,7 @@ func init() {
 		if n == 0 {
 			r.Undec("C09.12", "hdf5#selection-defaults", "", "no slice store into a HyperslabSelection found")
 		}
-		// ---- C09.13
-		m := 0
-		for _, fn := range c.LibFuncs() {
-			if shortPkg(fnPkgPath(fn)) != "hdf5" {
-				continue
-			}
-			instrs(fn, func(in ssa.Instruction) {
-				var key ssa.Value
-				switch x := in.(type) {
-				case *ssa.MapUpdate:
-					key = x.Key
-				case *ssa.Lookup:
-					if _, isMap := x.X.Type().Underlying().(*types.Map); isMap {
-						key = x.Index
-					}
-				}
-				if key == nil {
-					return
-				}
-				call, ok := key.(*ssa.Call)
-				if !ok {
-					return
-				}
-				g := call.Call.StaticCallee()
-				if g == nil || g.Blocks == nil || !inModule(fnPkgPath(g)) || len(g.Params) == 0 {
-					return
-				}
-				// a key function over a coordinate vector
-				var vec *ssa.Parameter
-				for _, p := range g.Params {
-					if sl, ok := p.Type().Underlying().(*types.Slice); ok && isIntType(sl.Elem()) {
-						vec = p
-					}
-				}
-				if vec == nil {
-					return
-				}
-				m++
-				cons := c.Name(fn) + "#" + c.Name(g) + "#key-identifies-chunk"
-				if !isIntType(g.Signature.Results().At(0).Type()) {
-					r.Hold("C09.13", cons, c.InstrPos(in), "the key is not a fixed-width integer (text / array encoding of all coordinates)")
-					return
-				}
-				// integer key: look for the fold phi*K + elem with constant K
-				hashed := ""
-				instrs(g, func(y ssa.Instruction) {
-					bo, ok := y.(*ssa.BinOp)
-					if !ok || bo.Op != token.ADD {
-						return
-					}
-					mul, ok := bo.X.(*ssa.BinOp)
-					if !ok || mul.Op != token.MUL {
-						mul, ok = bo.Y.(*ssa.BinOp)
-						if !ok || mul.Op != token.MUL {
-							return
-						}
-					}
-					_, kx := constInt(mul.X)
-					_, ky := constInt(mul.Y)
-					_, px := mul.X.(*ssa.Phi)
-					_, py := mul.Y.(*ssa.Phi)
-					if (kx && py) || (ky && px) {
-						hashed = c.InstrPos(y)
-					}
-				})
-				r.Check(hashed == "", "C09.13", cons, c.InstrPos(in), "integer key folded with a constant multiplier ("+hashed+"): different coordinate vectors share a key")
-			})
-		}
-		if m == 0 {
-			r.Undec("C09.13", "hdf5#chunk-index-key", "", "no map keyed by a function of a coordinate vector found")
-		}
+		chunkKeyRule(c, r, "C09.13")
 	})
 }
 
@@ -1502,5 +1433,96 @@ func stripSlices(v ssa.Value) ssa.Value {
 			continue
 		}
 		return v
+	}
+}
+
+// chunkKeyRule: a map key computed from a coordinate vector is an injective encoding.
+func chunkKeyRule(c *Ctx, r *Result, rule string) {
+	// ---- C09.13
+	m := 0
+	for _, fn := range c.LibFuncs() {
+		if shortPkg(fnPkgPath(fn)) != "hdf5" {
+			continue
+		}
+		instrs(fn, func(in ssa.Instruction) {
+			var key ssa.Value
+			switch x := in.(type) {
+			case *ssa.MapUpdate:
+				key = x.Key
+			case *ssa.Lookup:
+				if _, isMap := x.X.Type().Underlying().(*types.Map); isMap {
+					key = x.Index
+				}
+			}
+			if key == nil {
+				return
+			}
+			call, ok := key.(*ssa.Call)
+			if !ok {
+				return
+			}
+			g := call.Call.StaticCallee()
+			if g == nil || g.Blocks == nil || !inModule(fnPkgPath(g)) || len(g.Params) == 0 {
+				return
+			}
+			// a key function over a coordinate vector
+			var vec *ssa.Parameter
+			for _, p := range g.Params {
+				if sl, ok := p.Type().Underlying().(*types.Slice); ok && isIntType(sl.Elem()) {
+					vec = p
+				}
+			}
+			if vec == nil {
+				return
+			}
+			m++
+			cons := c.Name(fn) + "#" + c.Name(g) + "#key-identifies-chunk"
+			if !isIntType(g.Signature.Results().At(0).Type()) {
+				// a text key: decimal numbers joined without a separator are not an encoding ((1,10) and (11,0) both
+				// read "110")
+				noSep := ""
+				instrs(g, func(y ssa.Instruction) {
+					call2, ok := y.(*ssa.Call)
+					if !ok {
+						return
+					}
+					f := call2.Call.StaticCallee()
+					if f == nil || f.Pkg == nil || f.Pkg.Pkg.Path() != "strings" || f.Name() != "Join" || len(call2.Call.Args) != 2 {
+						return
+					}
+					if k, isK := call2.Call.Args[1].(*ssa.Const); isK && k.Value != nil && k.Value.Kind() == constant.String && constant.StringVal(k.Value) == "" {
+						noSep = c.InstrPos(call2)
+					}
+				})
+				r.Check(noSep == "", rule, cons, firstNonEmpty(noSep, c.InstrPos(in)), "the key is a text / array encoding of all coordinates with a separator between them (joined without one, the coordinates (1,10) and (11,0) give the same key)")
+				return
+			}
+			// integer key: look for the fold phi*K + elem with constant K
+			hashed := ""
+			instrs(g, func(y ssa.Instruction) {
+				bo, ok := y.(*ssa.BinOp)
+				if !ok || bo.Op != token.ADD {
+					return
+				}
+				mul, ok := bo.X.(*ssa.BinOp)
+				if !ok || mul.Op != token.MUL {
+					mul, ok = bo.Y.(*ssa.BinOp)
+					if !ok || mul.Op != token.MUL {
+						return
+					}
+				}
+				_, kx := constInt(mul.X)
+				_, ky := constInt(mul.Y)
+				_, px := mul.X.(*ssa.Phi)
+				_, py := mul.Y.(*ssa.Phi)
+				if (kx && py) || (ky && px) {
+					hashed = c.InstrPos(y)
+				}
+			})
+			r.Check(hashed == "", rule, cons, c.InstrPos(in), "integer key folded with a constant multiplier ("+hashed+"): different coordinate vectors share a key")
+		})
+	}
+	if m == 0 {
+		r.Undec(rule, "hdf5#chunk-index-key", "", "no map keyed by a function of a coordinate vector found")
 	}
 }
